@@ -64,6 +64,11 @@ def cases(ctx):
         for k in range(5):
             for fr in ("bf3", "bec2"):
                 yield ("cfg", ci, k, fr)
+    # a component flagged for encryption whose description lacks the encryption tag (the writer goes by the flag, the reader by the
+    # tag): recorded finding
+    for ln in (5, 16, 33):
+        for fr in ("bf3", "bec2"):
+            yield ("notag", ln, fr)
     # histories on ONE live file object: contents and keys change between writes; every write must store the ciphertext of
     # the CURRENT content under the key of THAT write (nothing may be remembered from earlier writes)
     depth = 4 if ctx.quick else 5
@@ -262,6 +267,17 @@ def run_case(ctx, case):
         plain = Bf3Component({0xC1: b"\x00"}, ctx.sym("c06-plain", 21))
         comp = Bf3Component(dict(TAGS_ENC), content, d, encrypt_by_session_key=True)
         return check_written(ctx, o, fr, [content], [plain, comp], key, [], "hand-built len=%d zrun=%d %s" % (ln, z, fr), d)
+    if kind == "notag":
+        _, ln, fr = case
+        key = key_of(ctx, 1)
+        content = shapes.payload(ctx, "c06-notag-%d" % ln, ln, 0)
+        comp = Bf3Component({0xC1: b"\x05"}, content, None, encrypt_by_session_key=True)
+        o2 = check_written(ctx, Outcome("ok", True), fr, [content], [comp], key, [], "flagged component without tag C2, len=%d %s" % (ln, fr))
+        if o2.viols:
+            o3 = Outcome("flag-without-enc-tag", True)
+            return o3.viol("read|flag-without-enc-tag", "a component flagged encrypt_by_session_key whose description has no tag C2 is stored as "
+                           "ciphertext but read back without decryption: %s" % o2.viols[0][1])
+        return o2
     if kind == "cfg":
         _, ci, k, fr = case
         key = key_of(ctx, k)
